@@ -60,8 +60,9 @@ M_JDEPTH = 'jensen:depth(k)<=depth(mean-k)'
 M_EMK = 'emission:k-spectrum==sum_g(w_g*I_g)'
 M_SEQ_TR = 'sequence:transmission:degenerate-k==xsec'
 M_SEQ_EM = 'sequence:emission:degenerate-k==xsec'
-REQUIRED = dict(monitors=[M_TR, M_TRT, M_EM, M_EMCF, M_WEXP, M_RANGE, M_JENSEN, M_EMTAU, M_JDEPTH, M_EMK, M_SEQ_TR, M_SEQ_EM],
-                classes=['sequence:add:Rayleigh', 'sequence:set', 'sequence:rebuild', 'sequence:fault', 'sequence:fault-fired', 'family:transmission', 'family:emission', 'ngauss:1', 'ngauss:2-4', 'ngauss:5+',
+M_PARTS = 'transmission:parts:degenerate-k==xsec'
+REQUIRED = dict(monitors=[M_TR, M_TRT, M_EM, M_EMCF, M_WEXP, M_RANGE, M_JENSEN, M_EMTAU, M_JDEPTH, M_EMK, M_SEQ_TR, M_SEQ_EM, M_PARTS],
+                classes=['parts:molecule-of-several', 'sequence:add:Rayleigh', 'sequence:set', 'sequence:rebuild', 'sequence:fault', 'sequence:fault-fired', 'family:transmission', 'family:emission', 'ngauss:1', 'ngauss:2-4', 'ngauss:5+',
                          'weights:dirichlet', 'weights:gauss-legendre', 'weights:uniform',
                          'magnitude:transparent', 'magnitude:thin', 'magnitude:mixed', 'magnitude:saturating',
                          'molecules:1', 'molecules:2+', 'interp:linear', 'interp:exp', 'k:degenerate',
@@ -235,7 +236,7 @@ def write_world(ctx, spec, ktabs, xsecs=None):
     return xd, kd, root
 
 
-def run(ctx, spec, family, mode, xd, kd, given_deltaz=False, steps=None):
+def run(ctx, spec, family, mode, xd, kd, given_deltaz=False, steps=None, parts=False):
     """Configure the caches, build the model through the public API and run it.  mode: 'xsec' | 'ktables'."""
     from taurex.cache import OpacityCache
     from taurex.cache.ktablecache import KTableCache
@@ -276,6 +277,14 @@ def run(ctx, spec, family, mode, xd, kd, given_deltaz=False, steps=None):
     out = {'wn': np.array(wn, dtype=float), 'spectrum': np.array(spectrum, dtype=float),
            'tau': np.array(tau, dtype=float), 'model': model, 'ktau_min': _state['ktau'], 'xs_em': _state['xs_em'],
            'active': sorted(model.chemistry.activeGases), 'kem_path': _state['kem_path']}
+    if parts:
+        # the per-contribution and per-component routes (what ``taurex -o`` stores under Contributions/ and ``-c/-C`` plot)
+        out['parts'] = {}
+        for cname, (absorp, tau_c, _) in model.model_contrib()[1].items():
+            out['parts'][(cname, None)] = (np.array(absorp, dtype=float), np.array(tau_c, dtype=float))
+        for cname, comps in model.model_full_contrib()[1].items():
+            for name, absorp, tau_c, _ in comps:
+                out['parts'][(cname, name)] = (np.array(absorp, dtype=float), np.array(tau_c, dtype=float))
     if steps:
         # the SAME model object goes on: contributions are added, parameters written, it is rebuilt, and after every
         # step it is evaluated again (both members of a pair follow the same steps)
@@ -430,13 +439,25 @@ def wl_degenerate(ctx, rng):
     try:
         # ---- transmission
         ctx.feature(family='transmission')
-        xs = run(ctx, spec, 'transmission', 'xsec', xd, kd)
-        kt = run(ctx, spec, 'transmission', 'ktables', xd, kd)
+        parts = rng.random() < 0.5
+        xs = run(ctx, spec, 'transmission', 'xsec', xd, kd, parts=parts)
+        kt = run(ctx, spec, 'transmission', 'ktables', xd, kd, parts=parts)
         if xs is None or kt is None:
             ctx.event('invalid-model-licensed')
             return
         ctx.check('active-molecules-same', xs['active'] == kt['active'] == sorted(spec['tables']),
                   xsec=xs['active'], ktables=kt['active'])
+        if parts:
+            # every stored part (a contribution alone; one molecule / pair of it alone) agrees as well
+            ctx.check(M_PARTS + ':same-entries', sorted(map(str, xs['parts'])) == sorted(map(str, kt['parts'])),
+                      xsec=sorted(map(str, xs['parts'])), ktables=sorted(map(str, kt['parts'])))
+            for key in xs['parts']:
+                if key in kt['parts']:
+                    ctx.close(M_PARTS, kt['parts'][key][0], xs['parts'][key][0], TOL, part=str(key), ngauss=ng)
+                    ctx.close(M_PARTS + ':transmittance', kt['parts'][key][1], xs['parts'][key][1], TOL, atol=64 * EPS,
+                              part=str(key), ngauss=ng)
+                    if key[1] is not None and len(spec['tables']) > 1 and key[0] == 'Absorption':
+                        ctx.observe('parts:molecule-of-several')
         if spec['contributions'][0] == 'Absorption':     # behind an opaque contribution the early exit may skip it
             ctx.check('ktable-kernel-used', len(kt['ktau_min']) > 0)
         if spec['contributions'][0] == 'Absorption' and len(spec['contributions']) > 1 and near_early_exit(kt):
